@@ -469,3 +469,51 @@ func FieldOf(v ssa.Value) (owner, field string, base ssa.Value, ok bool) {
 	}
 	return "", "", nil, false
 }
+
+// VarIdentity resolves a value to the local variable (Alloc) it is a load of,
+// looking through closure captures: a FreeVar of an anonymous function is
+// mapped to the binding of the MakeClosure that created it. Returns nil when
+// v is not a variable load.
+func VarIdentity(v ssa.Value) ssa.Value {
+	for i := 0; i < 6; i++ {
+		switch x := v.(type) {
+		case *ssa.UnOp:
+			if x.Op != token.MUL {
+				return nil
+			}
+			v = x.X
+		case *ssa.MakeInterface:
+			v = x.X
+		case *ssa.ChangeType:
+			v = x.X
+		case *ssa.Alloc:
+			return x
+		case *ssa.FreeVar:
+			fn := x.Parent()
+			if fn == nil || fn.Parent() == nil {
+				return x
+			}
+			idx := -1
+			for i, fv := range fn.FreeVars {
+				if fv == x {
+					idx = i
+				}
+			}
+			found := false
+			for _, b := range fn.Parent().Blocks {
+				for _, in := range b.Instrs {
+					if mc, ok := in.(*ssa.MakeClosure); ok && mc.Fn == ssa.Value(fn) && idx >= 0 && idx < len(mc.Bindings) {
+						v = mc.Bindings[idx]
+						found = true
+					}
+				}
+			}
+			if !found {
+				return x
+			}
+		default:
+			return nil
+		}
+	}
+	return nil
+}
